@@ -216,24 +216,28 @@ static void pred_ols(const Case &c) {
 static void gen_pinv(Draw &d, Case &c) {
   int n = (int)d.sz(1, 8), m = n + (int)d.sz(0, 8);
   M A = gen_rect(d, m, n, 2, c.tags);
-  c.p = {m, n}; put(c, A);
+  int which = d.coin(35) ? 1 : 0;            // 0 MatrixMoorePenrosePseudoinverse, 1 MatrixPseudoinversion (SVD based)
+  c.p = {m, n, which}; put(c, A);
+  c.tags.push_back(which ? "routine=MatrixPseudoinversion" : "routine=MatrixMoorePenrosePseudoinverse");
+  c.tags.push_back(m > n ? "tall" : "square");
   c.nontrivial = m > n && n >= 2;
 }
 static void pred_pinv(const Case &c) {
-  Reader rd(c); int m = (int)rd.i(), n = (int)rd.i();
+  Reader rd(c); int m = (int)rd.i(), n = (int)rd.i(); int which = c.p.size() > 2 ? (int)rd.i() : 0;
   M A = rd.mat(m, n);
   ld smax, smin; cond_of(A, smax, smin); ld kappa = smax / smin;
   matrix *a = to_lib(A), *inv; initMatrix(&inv);
-  MatrixMoorePenrosePseudoinverse(a, inv);
-  VF_CHECK((int)inv->row == n && (int)inv->col == m, "MatrixMoorePenrosePseudoinverse: shape %s for a %dx%d input", dims(inv).c_str(), m, n);
+  const char *RN = which ? "MatrixPseudoinversion" : "MatrixMoorePenrosePseudoinverse";
+  if (which) MatrixPseudoinversion(a, inv); else MatrixMoorePenrosePseudoinverse(a, inv);
+  VF_CHECK((int)inv->row == n && (int)inv->col == m, "%s: shape %s for a %dx%d input", RN, dims(inv).c_str(), m, n);
   M P = from_lib(inv);
-  VF_CHECK(all_finite(P), "MatrixMoorePenrosePseudoinverse: non-finite entries (%dx%d, kappa=%.3Lg, sigma_max=%.3Lg)", m, n, kappa, smax);
+  VF_CHECK(all_finite(P), "%s: non-finite entries (%dx%d, kappa=%.3Lg, sigma_max=%.3Lg)", RN, m, n, kappa, smax);
   ld tol = CT2 * (m + n) * EPS * kappa * kappa;
   M AP = mul(A, P), PA = mul(P, A);
   ld c1 = fro(sub(mul(AP, A), A)) / fro(A), c2 = fro(sub(mul(PA, P), P)) / fro(P);
   ld c3 = fro(sub(AP, transpose(AP))), c4 = fro(sub(PA, transpose(PA)));
   VF_CHECK(c1 <= tol && c2 <= tol && c3 <= tol && c4 <= tol,
-           "MatrixMoorePenrosePseudoinverse: Penrose residuals %.3Lg %.3Lg %.3Lg %.3Lg > tol %.3Lg (%dx%d, kappa=%.3Lg, sigma_max=%.3Lg)", c1, c2, c3, c4, tol, m, n, kappa, smax);
+           "%s: Penrose residuals %.3Lg %.3Lg %.3Lg %.3Lg > tol %.3Lg (%dx%d, kappa=%.3Lg, sigma_max=%.3Lg)", RN, c1, c2, c3, c4, tol, m, n, kappa, smax);
   DelMatrix(&a); DelMatrix(&inv);
 }
 
@@ -271,31 +275,34 @@ static void gen_svd(Draw &d, Case &c) {
   int shape = (int)d.i(0, 2); if (shape == 0) n = m; else if (shape == 1 && m < n) std::swap(m, n); else if (shape == 2 && m > n) std::swap(m, n);
   M A = gen_rect(d, m, n, 6, c.tags);
   if (d.coin(15) && std::min(m, n) >= 2) { for (int i = 0; i < m; i++) A(i, n - 1) = A(i, 0); c.tags.push_back("rank-deficient"); }
-  c.p = {m, n}; put(c, A);
+  int which = d.coin(35) ? 1 : 0;            // 0 SVDlapack, 1 SVD ("local implementation")
+  c.p = {m, n, which}; put(c, A);
   c.tags.push_back(m > n ? "tall" : m < n ? "wide" : "square");
+  c.tags.push_back(which ? "routine=SVD" : "routine=SVDlapack");
   c.nontrivial = m != n;
 }
 static void pred_svd(const Case &c) {
-  Reader rd(c); int m = (int)rd.i(), n = (int)rd.i();
+  Reader rd(c); int m = (int)rd.i(), n = (int)rd.i(); int which = c.p.size() > 2 ? (int)rd.i() : 0;
   M A = rd.mat(m, n);
   matrix *a = to_lib(A), *u, *s, *vt; initMatrix(&u); initMatrix(&s); initMatrix(&vt);
-  SVDlapack(a, u, s, vt);
+  const char *RN = which ? "SVD" : "SVDlapack";
+  if (which) SVD(a, u, s, vt); else SVDlapack(a, u, s, vt);
   VF_CHECK((int)u->row == m && (int)vt->col == n && u->col == s->row && s->col == vt->row,
-           "SVDlapack: factors not conformable for a %dx%d input: u %s, s %s, vt %s", m, n, dims(u).c_str(), dims(s).c_str(), dims(vt).c_str());
+           "%s: factors not conformable for a %dx%d input: u %s, s %s, vt %s", RN, m, n, dims(u).c_str(), dims(s).c_str(), dims(vt).c_str());
   M U = from_lib(u), S = from_lib(s), VT = from_lib(vt);
-  VF_CHECK(all_finite(U) && all_finite(S) && all_finite(VT), "SVDlapack: non-finite factor entries");
+  VF_CHECK(all_finite(U) && all_finite(S) && all_finite(VT), "%s: non-finite factor entries", RN);
   V ref = singular_values(A);
   ld smax = ref.empty() ? 0 : ref[0], tol = CT2 * std::max(m, n) * EPS * smax + 1e-300L;
   int k = std::min((int)s->row, (int)s->col);
-  VF_CHECK(k >= std::min(m, n), "SVDlapack: only %d singular values for a %dx%d input", k, m, n);
-  std::vector<double> got; for (int i = 0; i < k; i++) { VF_CHECK(s->data[i][i] >= 0, "SVDlapack: negative singular value %g", s->data[i][i]); got.push_back(s->data[i][i]); }
-  for (int i = 0; i < (int)s->row; i++) for (int j = 0; j < (int)s->col; j++) if (i != j) VF_CHECK(s->data[i][j] == 0, "SVDlapack: s not diagonal");
+  VF_CHECK(k >= std::min(m, n), "%s: only %d singular values for a %dx%d input", RN, k, m, n);
+  std::vector<double> got; for (int i = 0; i < k; i++) { VF_CHECK(s->data[i][i] >= 0, "%s: negative singular value %g", RN, s->data[i][i]); got.push_back(s->data[i][i]); }
+  for (int i = 0; i < (int)s->row; i++) for (int j = 0; j < (int)s->col; j++) if (i != j) VF_CHECK(s->data[i][j] == 0, "%s: s not diagonal", RN);
   std::sort(got.begin(), got.end(), [](double x, double y) { return x > y; });
-  for (int i = 0; i < std::min(m, n); i++) VF_CLOSE(got[i], ref[i], tol, "SVDlapack singular value vs one-sided Jacobi");
-  for (int i = std::min(m, n); i < k; i++) VF_CLOSE(got[i], 0, tol, "SVDlapack surplus singular value");
+  for (int i = 0; i < std::min(m, n); i++) VF_CLOSE(got[i], ref[i], tol, which ? "SVD singular value vs one-sided Jacobi" : "SVDlapack singular value vs one-sided Jacobi");
+  for (int i = std::min(m, n); i < k; i++) VF_CLOSE(got[i], 0, tol, which ? "SVD surplus singular value" : "SVDlapack surplus singular value");
   M R = sub(mul(mul(U, S), VT), A);
-  VF_CHECK(fro(R) <= tol * std::min(m, n), "SVDlapack: |U S Vt - A| = %.3Lg > tol %.3Lg (%dx%d)", fro(R), tol * std::min(m, n), m, n);
-  for (int i = 0; i < m; i++) for (int j = 0; j < n; j++) VF_CHECK(a->data[i][j] == (double)A(i, j), "SVDlapack modified its input");
+  VF_CHECK(fro(R) <= tol * std::min(m, n), "%s: |U S Vt - A| = %.3Lg > tol %.3Lg (%dx%d)", RN, fro(R), tol * std::min(m, n), m, n);
+  for (int i = 0; i < m; i++) for (int j = 0; j < n; j++) VF_CHECK(a->data[i][j] == (double)A(i, j), "%s modified its input", RN);
   DelMatrix(&a); DelMatrix(&u); DelMatrix(&s); DelMatrix(&vt);
 }
 
